@@ -115,7 +115,7 @@ class Guitar(Instrument):
         Instrument.__init__(self)
 
     def can_play_notes(self, notes):
-        if len(notes) > 6:
+        if (hasattr(notes, "notes") or isinstance(notes, list)) and len(notes) > 6:
             return False
         return Instrument.can_play_notes(self, notes)
 
